@@ -105,6 +105,9 @@ type Req struct {
 	NeedBlock  bool // inbox POST: side effects also need the block check
 	PreAuth    []string
 	CBLog      []string
+	IDs        int    // ids generated for this request
+	WaitSite   string // library function of the last blocking Lock attempt
+	WaitID     string // id it tried to lock
 }
 
 type reqKey struct{}
@@ -130,6 +133,7 @@ type App struct {
 	StoredInbox map[string]bool   // actors for which InboxForActor answers actor+"/inbox"
 	Remote      map[string][]byte // documents served by Transport.Dereference
 	NextID      int
+	ReqBase     int // number of requests served before this App value was cloned (keeps ids unique)
 	Now         time.Time
 
 	// behaviour
@@ -217,7 +221,7 @@ func cloneSet(m map[string]bool) map[string]bool {
 
 // NewReq registers a request monitor.
 func (a *App) NewReq(t *mc.T) *Req {
-	r := &Req{ID: len(a.Reqs), T: t, Held: map[string]int{}, Site: map[string]string{}}
+	r := &Req{ID: a.ReqBase + len(a.Reqs), T: t, Held: map[string]int{}, Site: map[string]string{}}
 	a.Reqs = append(a.Reqs, r)
 	return r
 }
@@ -477,8 +481,11 @@ func (a *App) Canonical() string {
 // StateHash hashes the persistent state (for state keys).
 func (a *App) StateHash() uint64 {
 	h := mc.NewH()
-	h.Str(a.Canonical())
+	a.hashEntries(h)
 	h.U64(uint64(a.NextID))
+	for _, r := range a.Reqs {
+		h.U64(uint64(r.IDs))
+	}
 	h.U64(uint64(len(a.Deliveries)))
 	for _, d := range a.Deliveries {
 		h.Bytes(d.Payload)
@@ -601,4 +608,90 @@ func LibFrame() string {
 		}
 	}
 	return "?"
+}
+
+// MultisetCanonical renders the persistent state with every collection (inbox, outbox, and any
+// 'items' / 'orderedItems' array inside a stored value) sorted: equality of two such renderings
+// means every collection holds the same multiset of ids, whatever the order.
+func (a *App) MultisetCanonical() string {
+	var sb strings.Builder
+	keys := make([]string, 0, len(a.Store))
+	for k := range a.Store {
+		keys = append(keys, k)
+	}
+	sort.Strings(keys)
+	for _, k := range keys {
+		var m map[string]interface{}
+		json.Unmarshal(a.Store[k], &m)
+		sortCollections(m)
+		sb.WriteString("S " + k + " = ")
+		sb.Write(MustJSON(m))
+		sb.WriteString("\n")
+	}
+	for _, pair := range []struct {
+		n string
+		m map[string][]string
+	}{{"I", a.Inboxes}, {"O", a.Outboxes}} {
+		ks := make([]string, 0, len(pair.m))
+		for k := range pair.m {
+			ks = append(ks, k)
+		}
+		sort.Strings(ks)
+		for _, k := range ks {
+			l := append([]string(nil), pair.m[k]...)
+			sort.Strings(l)
+			fmt.Fprintf(&sb, "%s %s = %s\n", pair.n, k, strings.Join(l, " "))
+		}
+	}
+	return sb.String()
+}
+
+func sortCollections(v interface{}) {
+	switch x := v.(type) {
+	case map[string]interface{}:
+		for k, e := range x {
+			if arr, ok := e.([]interface{}); ok && (k == "items" || k == "orderedItems") {
+				strs := make([]string, len(arr))
+				for i, el := range arr {
+					strs[i] = string(MustJSON(el))
+				}
+				sort.Strings(strs)
+				na := make([]interface{}, len(strs))
+				for i, s := range strs {
+					na[i] = json.RawMessage(s)
+				}
+				x[k] = na
+				continue
+			}
+			sortCollections(e)
+		}
+	case []interface{}:
+		for _, e := range x {
+			sortCollections(e)
+		}
+	}
+}
+
+// hashEntries folds store, inboxes and outboxes into h in an order-independent way (sum of
+// per-entry hashes), which is much cheaper than rendering Canonical() at every scheduling point.
+func (a *App) hashEntries(h *mc.H) {
+	var sum uint64
+	for k, v := range a.Store {
+		sum += mc.NewH().Str("S").Str(k).Bytes(v).Sum()
+	}
+	for k, v := range a.Inboxes {
+		e := mc.NewH().Str("I").Str(k)
+		for _, x := range v {
+			e.Str(x)
+		}
+		sum += e.Sum()
+	}
+	for k, v := range a.Outboxes {
+		e := mc.NewH().Str("O").Str(k)
+		for _, x := range v {
+			e.Str(x)
+		}
+		sum += e.Sum()
+	}
+	h.U64(sum)
 }
